@@ -403,6 +403,36 @@ def check_specs():
     return [dict(what=b, input=dict(kind='specs'), signature=dict(op='specs', what=b[:40])) for b in bad]
 
 
+def check_requested_tolerance():
+    """through the public entry point: the residual at the returned steady state is below the REQUESTED target tolerance (ttol), whatever the other tolerances in the options"""
+    import os, sys, importlib
+    d = os.path.join(C.WORK, 'models')
+    os.makedirs(d, exist_ok=True)
+    with open(os.path.join(d, 'verif_c20_tol.py'), 'w') as f:
+        f.write('from sequence_jacobian import simple\n\n@simple\ndef tol_fg(x, y):\n    f = x + 2 * y + 0.3 * x * y * y\n    g = x * y + 0.2 * x ** 3\n    return f, g\n')
+    if d not in sys.path:
+        sys.path.insert(0, d)
+    importlib.invalidate_caches()
+    sys.modules.pop('verif_c20_tol', None)
+    tm = importlib.import_module('verif_c20_tol')
+    from sequence_jacobian import combine
+    model = combine([tm.tol_fg], name='tol_model')
+    out = []
+    for solver in ('broyden_custom', 'newton_custom'):
+        for ttol, ctol in ((1e-4, 1e-2), (1e-13, 1e-9), (1e-12, 1e-9), (1e-6, 1e-12)):
+            inp = dict(kind='requested-tolerance', solver=solver, ttol=ttol, ctol=ctol, unknowns={'x': 1.4, 'y': 0.9}, targets={'f': 4.0, 'g': 2.0})
+            try:
+                ss = model.solve_steady_state({}, {'x': 1.4, 'y': 0.9}, {'f': 4.0, 'g': 2.0}, solver=solver, ttol=ttol, ctol=ctol)
+            except Exception as ex:
+                out.append(dict(what=f'solve_steady_state raised {type(ex).__name__}: {ex}', input=inp, signature=dict(op='requested-tolerance', solver=solver, what='raise')))
+                continue
+            re = model.steady_state({'x': ss['x'], 'y': ss['y']})
+            err = max(abs(re['f'] - 4.0), abs(re['g'] - 2.0))
+            if not err < ttol + 4e-16:          # the residual the solver tested is the model's value at the returned point (bit-exact re-evaluation of simple blocks)
+                out.append(dict(what='the steady state returned misses a target by more than the requested tolerance ttol', input=inp, observed=float(err), signature=dict(op='requested-tolerance', solver=solver)))
+    return out
+
+
 def oracle(ctx, hints, broken):
     rng = ctx['rng']
     nr = np.random.default_rng(ctx['seed'] + 200)
@@ -421,6 +451,9 @@ def oracle(ctx, hints, broken):
         C.push(viol, v)
     C.push(viol, d12_probe())
     n += 8
+    for v in check_requested_tolerance():
+        C.push(viol, v)
+    n += 8
     return dict(evaluations=n, violations=viol,
                 rule='instrumented residual functions: returned (x, y) re-evaluated, tolerance checked, recovery from ValueError regions; bounded residuals '
                      '(open and closed rule, out-of-bounds starts and proposals) with every evaluated point checked against the bounds; unknown '
@@ -431,6 +464,9 @@ def replay(rp):
     c = rp.get('input') or {}
     if c.get('kind') == 'd12':
         return d12_probe()
+    if c.get('kind') == 'requested-tolerance':
+        b = check_requested_tolerance()
+        return b[0] if b else None
     if c.get('kind') == 'specs':
         b = check_specs()
         return b[0] if b else None
